@@ -80,6 +80,7 @@ var c06Names = []string{"Invalid", "Equal", "Inside", "InsideStart", "InsideEnd"
 // orderings of the four endpoints.
 func C06(p *load.Prog, r *oblig.Run) {
 	defer memoKeys(p, r, "R06.h")
+	c06DecisionInputs(p, r)
 	r.Explanation = "Static model extraction + exhaustive finite decision. DateRange.Compare touches its four endpoints only through ordering tests " +
 		"(time.Time.Equal/Before/After on day-truncated instants), so its behaviour is a finite function of the weak ordering of the endpoints. The checker abstractly " +
 		"evaluates the SSA of DateRange.Compare / compareDatesForLetter (branches, constant returns, the constant map literal dateRangeCompareMatrix) over the abstract " +
